@@ -287,7 +287,7 @@ func (n *node) produce() (*types.Block, error, bool) {
 	case r := <-n.own:
 		n.settle()
 		return r.blk, r.err, true
-	case <-time.After(20 * time.Second):
+	case <-time.After(watchdog):
 		return nil, nil, false
 	}
 }
@@ -346,7 +346,7 @@ func (w *world) newNode(hf *config.HardforkConfig) *node {
 }
 
 func (n *node) settle() {
-	for i := 0; i < 4000; i++ {
+	for i := 0; i < 100000; i++ {
 		need, pending := chain.VerifC04VerifyState(n.cs)
 		if !need || pending == 1 {
 			return
@@ -370,6 +370,11 @@ func (n *node) close() {
 
 var errHung = errors.New("addBlock did not return")
 
+// watchdog: how long the real addBlock / block factory may take before the harness reports a hang. Generous: on a
+// loaded machine a block of a few hundred transactions may take seconds; a verification result that is never delivered
+// takes for ever.
+const watchdog = 180 * time.Second
+
 // add: watchdog around the real addBlock — a signature verification that never completes (result channel never
 // served) would otherwise hang the harness instead of being reported.
 func (n *node) add(b *types.Block, useMempool bool) error {
@@ -380,7 +385,7 @@ func (n *node) add(b *types.Block, useMempool bool) error {
 	case err := <-done:
 		n.settle()
 		return err
-	case <-time.After(20 * time.Second):
+	case <-time.After(watchdog):
 		return errHung
 	}
 }
@@ -1995,7 +2000,7 @@ func (s *session) opProduce(shape string) *mblk {
 	s.n.reoffer = nil
 	blk, err, done := s.n.produce()
 	if !done {
-		s.fail("the node's block factory did not hand a block to the chain service within 20 s")
+		s.fail("the node's block factory never handed a block to the chain service")
 		return nil
 	}
 	b := &mblk{bid: len(s.blks), parent: parent, height: parent.height + 1, blk: blk}
@@ -2056,6 +2061,41 @@ func (s *session) genProduce() {
 	}
 }
 
+
+// genBigBlock: a block with many more transactions than the verifier has workers and channel slots (VerifierCount 2),
+// all valid, or all valid but one — the last, the first, or any — signed with a wrong key.
+func (s *session) genBigBlock() {
+	rng := s.rng
+	tip := s.bestBlk()
+	n := []int{6, 9, 17, 33, 64}[rng.Intn(5)]
+	if s.run.Thorough() && rng.Chance(1, 5) {
+		n = 150 + rng.Intn(100)
+	}
+	extra := map[string]uint64{}
+	var txs []*mtx
+	for i := 0; i < n; i++ {
+		txs = append(txs, s.validTx(tip, extra))
+	}
+	shape := fmt.Sprintf("big%d", n)
+	if rng.Chance(1, 2) {
+		pos := []int{n - 1, 0, rng.Intn(n)}[rng.Intn(3)]
+		o := txs[pos].tx.Body
+		wrong := (s.acctIdx(o.Account) + 1 + rng.Intn(nAcct)) % (nAcct + 1)
+		nb := &types.TxBody{Nonce: o.Nonce, Account: o.Account, Recipient: o.Recipient, Amount: o.Amount, Type: o.Type, ChainIdHash: o.ChainIdHash}
+		txs[pos] = s.mk(txSpec{body: nb, sig: sigSpec{mode: "k", key: wrong}, hash: hashSpec{mode: "self"}, kind: "wrong-key"})
+		shape += "-one-forged"
+	}
+	use := rng.Chance(1, 2)
+	if use {
+		for _, m := range txs {
+			if rng.Chance(1, 8) {
+				s.opAdmit(m)
+			}
+		}
+	}
+	s.opBlock(tip, txs, use, shape)
+}
+
 func (s *session) runSession(nops int) {
 	// hard-fork heights of this session: version 5 from block 1 on, or version 4 up to a small height and 5 from there
 	s.forkAt = 0
@@ -2104,6 +2144,8 @@ func (s *session) runSession(nops int) {
 			s.genHeader()
 		case k < 35:
 			s.genProduce()
+		case k < 37:
+			s.genBigBlock()
 		case k < 39:
 			s.genAfterFailing()
 		case k < 43:
